@@ -268,7 +268,7 @@ class G:
         comment sign, assignees, block comments closed right after the marker"""
         return self.r.choice(["// TODO", "//fixme", "// FIXME   ", "//", "/**/", "/* TODO */", "/*FIXME*/", "// TODO(bob): x",
                               "// todo: y", "/* TODO\n * more\n */", "// TODOS are not todos", "//TODO", "// ", "/* */",
-                              "// FIXME(", "// TODO()", "/** FIXME */", "// \u00e9 TODO later"])
+                              "// FIXME(", "// TODO()", "/** FIXME */", "// TODO(bob)", "//fixme(al)", "// TODO(a.b+c@d)", "// TODO:", "// FIXME(x):", "// \u00e9 TODO later"])
     def class_body(self, d, kind, name="X"):
         if d > self.maxdepth: return "{ }"
         ms = []
